@@ -826,9 +826,31 @@ class Interp:
             yield self.binop(e.op, l, r), env, st
         elif isinstance(e, ast.Compare):
             if len(e.ops) != 1:
-                raise Unsupported("chained comparison")
+                # a < b < c  ==  a < b and b < c (operands here are names,
+                # attributes and constants: evaluating b twice is harmless)
+                terms, left = [], e.left
+                for op, right in zip(e.ops, e.comparators):
+                    terms.append(ast.copy_location(
+                        ast.Compare(left, [op], [right]), e))
+                    left = right
+                yield from self.cond(ast.copy_location(
+                    ast.BoolOp(ast.And(), terms), e), env, st, ctx)
+                return
             l = self.ev1(e.left, env, st, ctx)
             r = self.ev1(e.comparators[0], env, st, ctx)
+            if isinstance(e.ops[0], (ast.In, ast.NotIn)) and \
+                    isinstance(l, IvInt) and isinstance(r, range) and \
+                    r.step == 1:
+                # x in range(a, b)  ==  a <= x and x < b for an int x
+                both = ast.copy_location(ast.BoolOp(ast.And(), [
+                    ast.copy_location(ast.Compare(
+                        e.left, [ast.GtE()], [ast.Constant(r.start)]), e),
+                    ast.copy_location(ast.Compare(
+                        e.left, [ast.Lt()], [ast.Constant(r.stop)]), e)]), e)
+                if isinstance(e.ops[0], ast.NotIn):
+                    both = ast.copy_location(ast.UnaryOp(ast.Not(), both), e)
+                yield from self.cond(both, env, st, ctx)
+                return
             yield self.compare(e.ops[0], l, r, st), env, st
         elif isinstance(e, ast.BoolOp) or (isinstance(e, ast.UnaryOp)
                                            and isinstance(e.op, ast.Not)):
